@@ -41,6 +41,7 @@ type UEntry struct {
 	FInv       bool // identifier fails field validation (namespace on a cluster-scoped kind / none on a namespaced one)
 	KeepVar    int  // spelling of the keep attribute (index into keepVariants; 0 = by parity of the id)
 	Mut        bool // the dependency references of this id are spelled as apply-time-mutation substitutions
+	PreOwner   int  // the input manifest already carries an owning-inventory annotation: 1 = another id, 2 = ours
 	Fin        bool // every incarnation carries metadata.finalizers [finalizerName]; nobody removes it
 }
 
@@ -651,6 +652,7 @@ type History struct {
 	Initial Cluster
 	Runs    []Scenario
 	Outs    []Outcome
+	Reuse   bool // one Applier and one Destroyer object served all runs (not part of the Coq case)
 }
 
 func (h History) Coq() string {
@@ -688,6 +690,9 @@ func (h History) knownFindingMarkers() string {
 func (h History) Text() string {
 	var b strings.Builder
 	b.WriteString(h.knownFindingMarkers())
+	if h.Reuse {
+		b.WriteString("reuse ")
+	}
 	fmt.Fprintf(&b, "univ[%s] init{%s}", h.Univ.Text(), h.Initial.Text())
 	for i := range h.Runs {
 		fmt.Fprintf(&b, " RUN%d %s :: %s", i, h.Runs[i].Text(), h.Outs[i].Text())
@@ -708,6 +713,9 @@ func (u Universe) Text() string {
 		}
 		if e.Mut {
 			s[i] += "~mut"
+		}
+		if e.PreOwner > 0 {
+			s[i] += fmt.Sprintf("~pre%d", e.PreOwner)
 		}
 		if e.Fin {
 			s[i] += "~fin"
